@@ -37,7 +37,7 @@ PROPS["C05"] = {
              "signatures are derived from the seed; 200 absent probes per case, half forced into populated prefixes. non-trivial = some bucket with >=3 distinct hashes and >=1 duplicate; distinct by case hash"),
     "assumptions": ["sha-256 derivation of signatures", "xxhash via the package's exported Hash for the model"],
     "units": [
-        {"name": "current", "pkg": "./bucketteer", "run": "TestVfC05", "checks": T(120, 1600), "shards": T(4, 16), "timeout": T(600, 3000), "env": {"GOGC": "off"}},
+        {"name": "current", "pkg": "./bucketteer", "run": "TestVfC05", "checks": T(120, 640), "shards": T(4, 8), "timeout": T(600, 3000), "env": {"GOGC": "off"}},  # real 8 GiB-per-writer reservation: ~50 MB resident per case without collection, 80 cases per process
         {"name": "legacy", "pkg": "./deprecated/bucketteer", "run": "TestVfC05Legacy", "checks": T(300, 8000), "shards": T(3, 8), "timeout": T(600, 3000)},
     ],
 }
